@@ -215,6 +215,8 @@ def _short(e):
 
 
 def run(ctx):
+    if os.environ.get("VERIF_SELFTEST") == "1":
+        return selftest(ctx)
     rng = random.Random(ctx.seed)
     binaries()
     ctx.tick("build")
@@ -304,6 +306,8 @@ def run(ctx):
         ctx.sample({"cfg": alljobs[i][0], "schedule": alljobs[i][1], "trace": execs[i][:14]})
         ctx.sample({"cfg": alljobs[done[-1]][0], "schedule": alljobs[done[-1]][1], "trace": execs[done[-1]][-6:]})
     ctx.sample({"free_run": runs[1], "trace": [_short(e) for e in fexecs[1]]})
+    if not ctx.quick:
+        selftest(ctx)
     ctx.trusted = ["TLC", "probe_mpmc (scheduler, logging)", "hook H1: FIX8_VERIF_YIELD points and friend accessor (add-only)",
                    "ASan/UBSan for memory errors inside the queue"]
     ctx.assumptions = ["sequentially consistent atomics in the model", "bounded thread/operation counts in the model",
